@@ -1,0 +1,44 @@
+//go:build verif
+
+package test
+
+// Instantiations of the six generic helpers for the verifier (govc verifies generic functions per instantiation).
+// The bodies of the methods below are never looked at: the helpers reach them only through interface values, whose
+// methods are unknown callees for the verifier (arbitrary results, may panic).
+
+// value receiver: T itself implements the marshal interfaces, *T the unmarshal ones
+type vScript struct{ id int }
+
+func (v vScript) MarshalText() ([]byte, error)   { return nil, nil }
+func (v vScript) MarshalBinary() ([]byte, error) { return nil, nil }
+func (v vScript) MarshalJSON() ([]byte, error)   { return nil, nil }
+func (v *vScript) UnmarshalText([]byte) error    { return nil }
+func (v *vScript) UnmarshalBinary([]byte) error  { return nil }
+func (v *vScript) UnmarshalJSON([]byte) error    { return nil }
+
+// a type without any of the interfaces
+type noScript struct{ id int }
+
+func harnessC20(t TestingT,
+	a []CaseText[vScript], b []CaseBinary[vScript], c []CaseJSON[vScript], h TypeHelper[vScript],
+	pa []CaseText[*vScript], pb []CaseBinary[*vScript], pc []CaseJSON[*vScript], ph TypeHelper[*vScript],
+	na []CaseText[noScript], nb []CaseBinary[noScript], nc []CaseJSON[noScript], nh TypeHelper[noScript]) {
+	MarshalText(t, a)
+	MarshalBinary(t, b)
+	MarshalJSON(t, c)
+	UnmarshalText(t, a, h)
+	UnmarshalBinary(t, b, h)
+	UnmarshalJSON(t, c, h)
+	MarshalText(t, pa)
+	MarshalBinary(t, pb)
+	MarshalJSON(t, pc)
+	UnmarshalText(t, pa, ph)
+	UnmarshalBinary(t, pb, ph)
+	UnmarshalJSON(t, pc, ph)
+	MarshalText(t, na)
+	MarshalBinary(t, nb)
+	MarshalJSON(t, nc)
+	UnmarshalText(t, na, nh)
+	UnmarshalBinary(t, nb, nh)
+	UnmarshalJSON(t, nc, nh)
+}
